@@ -85,7 +85,11 @@ def work(a):
     try:
         with Scratch("c11") as s:
             cd = os.path.join(s, "case")
-            case = build(bdir, caseseed, kind, prof, cd)
+            try:
+                case = build(bdir, caseseed, kind, prof, cd)
+            except OSError as e:
+                res["skip"] = "the host file system cannot hold this tree: %s" % str(e)[:80]      # not a packer matter
+                return res
             res["case"] = dict(case.describe(), realkind=kind)
             seen = {}
             for p in perms(caseseed):
